@@ -68,6 +68,19 @@ class Effects:
         for q, fe in self.funcs.items():
             self._scan(fe)
 
+    def _module_func_list(self, mname: str, name: str):
+        mod = self.repo.modules.get(mname)
+        if mod is None:
+            return None
+        for node in mod.tree.body:
+            if isinstance(node, ast.Assign) and any(isinstance(t, ast.Name) and t.id == name for t in node.targets) \
+                    and isinstance(node.value, (ast.List, ast.Tuple)) and node.value.elts \
+                    and all(isinstance(e, ast.Name) for e in node.value.elts):
+                out = [mname + "." + e.id for e in node.value.elts if (mname + "." + e.id) in self.funcs]
+                if len(out) == len(node.value.elts):
+                    return out
+        return None
+
     def _resolve_class(self, name: str, mname: str):
         tgt = self.imports.get(mname, {}).get(name)
         if tgt and tgt in self.class_methods:
@@ -147,6 +160,13 @@ class Effects:
             return (isinstance(v, ast.Call) and isinstance(v.func, ast.Name)
                     and self._resolve_class(v.func.id, mname) is not None and v.func.id not in params)
 
+        # `for f in TABLE: f(...)` where TABLE is a module-level list of function names
+        loop_over_funcs = {}
+        for n in _walk_own(info.node):
+            if isinstance(n, ast.For) and isinstance(n.target, ast.Name) and isinstance(n.iter, ast.Name):
+                tbl = self._module_func_list(mname, n.iter.id)
+                if tbl:
+                    loop_over_funcs[n.target.id] = tbl
         fresh_locals = {x for x, vals in assigned_from.items() if vals and all(is_ctor(v) for v in vals)
                         and x not in params}
         fe.fresh_locals = fresh_locals
@@ -210,6 +230,9 @@ class Effects:
                             fe.dynamic.append((name, n))
                     if name in nested_here and name not in params:
                         fe.calls.append((nested_here[name], n))
+                    elif name in loop_over_funcs:
+                        for t in loop_over_funcs[name]:
+                            fe.calls.append((t, n))
                     elif name in local_assigned or name in params:
                         fe.dynamic.append((f"call of local value {name}", n))
                     elif name in imp:
